@@ -79,20 +79,30 @@ def apply_edits(root, edits):
 
 
 def run_rules(pid, repo, config="lib"):
-    facts, meta = extract.extract(config, repo=repo, cache=False)
+    """findings of property `pid` on the tree at `repo`, in the configurations its quick tier uses (lib; C15 also the CLI crate)"""
     mod = importlib.import_module("rules." + pid)
+    cfgs = list(getattr(mod, "QUICK_CONFIGS", [config]))
+    if config not in cfgs:
+        cfgs = [config]
     findings = []
-    for f in facts:
-        if f["crate"] != "feoxdb":
-            continue
-        ctx = Ctx(Program(f), pid, config)
-        try:
-            mod.check(ctx)
-        except Exception:
-            import traceback
-            ctx.fail("engine", "internal", "-", "rule engine error: " + traceback.format_exc()[-600:])
-        findings.extend(ctx.findings)
+    for cfg in cfgs:
+        facts, meta = extract.extract(cfg, repo=repo, cache=(cfg != cfgs[0]) or _FACTS_CACHED.get(repo, False))
+        for f in facts:
+            if f["crate"] == "feoxdb" and cfg == "bin" and "lib" in cfgs:
+                continue
+            if f["crate"] != "feoxdb" and not hasattr(mod, "check_bin"):
+                continue
+            ctx = Ctx(Program(f), pid, cfg)
+            try:
+                (mod.check if f["crate"] == "feoxdb" else mod.check_bin)(ctx)
+            except Exception:
+                import traceback
+                ctx.fail("engine", "internal", "-", "rule engine error: " + traceback.format_exc()[-600:])
+            findings.extend(ctx.findings)
     return findings
+
+
+_FACTS_CACHED = {}
 
 
 def run(pids, only=None, verbose=True):
